@@ -17,6 +17,7 @@ type triIn struct {
 	Rebuild   int      `json:"rebuild,omitempty"`
 	RrRebuild int      `json:"rr_rebuild,omitempty"` // the roaring builder only: BuildIndexer() also after that many documents
 	Pre       bool     `json:"pre,omitempty"`        // the posting-list builders have produced an earlier generation (the same documents under other ids) and were Reset
+	Dump      bool     `json:"dump,omitempty"`       // the posting-list indexes are dumped (debug helpers) before they are queried
 	Warm      int      `json:"warm,omitempty"`       // the posting-list indexes are built from a cache provider an earlier builder filled (eCase.Warm); roaring has no cache
 	Ac        bool     `json:"ac,omitempty"`         // field 1 is a pattern field in all three indexes (documents from acDocsQueries)
 }
@@ -148,6 +149,24 @@ func init() {
 				add(triIn{Tri: true, NF: 3, Docs: docs, Qs: qs, Warm: 2})
 				add(triIn{Tri: true, NF: 3, Docs: docs, Qs: qs, Warm: 5})
 			}
+			// indexes dumped through the debug helpers before they are queried: posting lists on which ids of both signs,
+			// later conjunctions of smaller ids and conjunctions of several sizes meet
+			{
+				one := func(v int64) TV { return tvSlice("[]int", tvInt("int", v)) }
+				docs := []eDoc{
+					{ID: 1, Cons: []eConj{{{F: 0, Inc: true, V: one(9)}}, {{F: 0, Inc: true, V: one(1)}}}},
+					{ID: 2, Cons: []eConj{{{F: 0, Inc: true, V: one(1)}}}},
+					{ID: -4, Cons: []eConj{{{F: 1, Inc: true, V: one(5)}}}},
+					{ID: 9, Cons: []eConj{{{F: 1, Inc: true, V: one(5)}}}},
+					{ID: 3, Cons: []eConj{{{F: 0, Inc: true, V: one(1)}, {F: 1, Inc: true, V: one(5)}}}},
+					{ID: 12, Cons: []eConj{{{F: 0, Inc: false, V: one(1)}}, {{F: 1, Inc: false, V: one(5)}}}},
+				}
+				var qs []eQuery
+				for _, a := range [][2]int64{{1, 0}, {0, 5}, {1, 5}, {9, 5}, {2, 2}} {
+					qs = append(qs, eQuery{A: []eAssign{{F: 0, V: tvInt("int", a[0])}, {F: 1, V: tvInt("int", a[1])}}}, eQuery{A: []eAssign{{F: 0, V: tvInt("int", a[0])}}}, eQuery{A: []eAssign{{F: 1, V: tvInt("int", a[1])}}})
+				}
+				add(triIn{Tri: true, NF: 2, Docs: docs, Qs: qs, Dump: true})
+			}
 			for i := 0; i < n; i++ {
 				p := []string{"", "number", "strhash"}[i%3]
 				nf := 1 + r.Intn(4)
@@ -187,6 +206,8 @@ func init() {
 					t.Batch = 2 + r.Intn(3)
 				case r.Chance(30) && len(t.Docs) > 1:
 					t.Rebuild = 1 + r.Intn(len(t.Docs)-1)
+				case i%7 == 5: // dumped through the debug helpers before being queried
+					t.Dump = true
 				case i%7 == 3: // served from a cache an earlier builder filled (every expression of two and more values makes its conjunction cacheable)
 					t.Warm = 1
 				}
@@ -214,7 +235,7 @@ func init() {
 			// the unknown query field must use the same parser on the posting-list side when it happens
 			// to be created by a document: it never is (documents use fields < NF)
 			mk := func(kind string) (execResult, error) {
-				c := eCase{Kind: kind, Policy: "error", Parsers: parsers, Configs: configs, Docs: t.Docs, Queries: t.Qs, Batch: t.Batch, Rebuild: t.Rebuild, Warm: t.Warm}
+				c := eCase{Kind: kind, Policy: "error", Parsers: parsers, Configs: configs, Docs: t.Docs, Queries: t.Qs, Batch: t.Batch, Rebuild: t.Rebuild, Warm: t.Warm, Dump: t.Dump}
 				if t.Pre { // a reused builder: BuildIndex, Reset, AddDocument, BuildIndex (field configuration must survive Reset)
 					for _, d := range t.Docs {
 						c.Pre = append(c.Pre, eDoc{ID: d.ID + 100000, Cons: d.Cons})
